@@ -38,13 +38,14 @@ type PermCase struct {
 }
 
 type permSource struct {
-	name   string
-	d      dmodel.Dialect
-	models []*dmodel.Model // one or two (multi-schema) models of the source
-	other  *dmodel.Model   // the fixed other side of modify / rev
-	doc    string
-	blocks []string
-	raw    bool // hand written multi-schema document (rawdocs.go): realm diffs against the empty realm
+	name    string
+	d       dmodel.Dialect
+	models  []*dmodel.Model // one or two (multi-schema) models of the source
+	other   *dmodel.Model   // the fixed other side of modify / rev
+	doc     string
+	blocks  []string
+	flavour string // "" | tidb | mariadb (connected MySQL driver of that flavour)
+	raw     bool   // hand written multi-schema document (rawdocs.go): realm diffs against the empty realm
 }
 
 type permEnv struct {
@@ -73,7 +74,7 @@ type baseline struct {
 }
 
 func (e *permEnv) baseline(s *permSource, mode string) *baseline {
-	k := string(s.d) + "|" + s.name + "|" + mode
+	k := s.dk() + "|" + s.name + "|" + mode
 	e.mu.Lock()
 	b := e.bases[k]
 	if b == nil {
@@ -109,7 +110,7 @@ func (e *permEnv) baseline(s *permSource, mode string) *baseline {
 // marshalled returns the sorted top-level blocks of MarshalHCL(realm) and, with roundTrip, the
 // order-normalised dump of the realm obtained by evaluating that document again.
 func marshalled(s *permSource, r *schema.Realm, roundTrip bool) (blocks, rt []string, mErr, rtErr string) {
-	a := apis[s.d]
+	a := apiFor(s.d, s.flavour)
 	var v any = r
 	if len(s.models) == 1 && !s.raw {
 		sc, ok := r.Schema(s.models[0].Schema)
@@ -160,7 +161,7 @@ func newPermEnv(seed uint64) *permEnv {
 		if strings.Join(s.blocks, "") != s.doc {
 			panic("c20: block split of " + s.name + " does not reassemble to the document")
 		}
-		k := string(s.d) + "|" + s.name
+		k := s.dk() + "|" + s.name
 		e.sources[k] = s
 		e.order = append(e.order, k)
 	}
@@ -198,7 +199,20 @@ func newPermEnv(seed uint64) *permEnv {
 		edited, _ := goodWalk(d, all, 12, rand.New(rand.NewPCG(seed, 0xBEE<<8|uint64(len(d)))))
 		add(&permSource{name: "all", d: d, models: []*dmodel.Model{all}, other: edited})
 		add(&permSource{name: "half", d: d, models: []*dmodel.Model{half}, other: all})
-		add(&permSource{name: "dag", d: d, models: []*dmodel.Model{dagModel(seed, d)}, other: half})
+		dag := dagModel(seed, d)
+		add(&permSource{name: "dag", d: d, models: []*dmodel.Model{dag}, other: half})
+		chFrom, chTo := chainModels(d)
+		add(&permSource{name: "chain", d: d, models: []*dmodel.Model{chTo}, other: chFrom})
+		if d == dmodel.MySQL {
+			for _, fl := range flavours {
+				add(&permSource{name: "chain", d: d, flavour: fl, models: []*dmodel.Model{chTo}, other: chFrom})
+				dg, hf := dag, half
+				if fl == "tidb" { // the TiDB differ refuses CHECK constraints
+					dg, hf = noChecks(dag), noChecks(half)
+				}
+				add(&permSource{name: "dag", d: d, flavour: fl, models: []*dmodel.Model{dg}, other: hf})
+			}
+		}
 		if d != dmodel.SQLite { // the SQLite planner refuses AddSchema / DropSchema
 			add(&permSource{name: "all+aux", d: d, models: []*dmodel.Model{all, aux}, other: half})
 			for _, rd := range rawDocs(d) {
@@ -208,6 +222,8 @@ func newPermEnv(seed uint64) *permEnv {
 	}
 	return e
 }
+
+func (s *permSource) dk() string { return dkey(s.d, s.flavour) }
 
 // permFiles renders the permuted source as files. Files are named f<k>.hcl; Atlas evaluates the files
 // of one source in file-name order.
@@ -516,7 +532,7 @@ type planned struct {
 
 // planFor evaluates the files and plans the case's change with fresh graphs on both sides.
 func planFor(s *permSource, mode string, files []HFile) (p planned) {
-	a := apis[s.d]
+	a := apiFor(s.d, s.flavour)
 	r, err := a.evalFiles(files)
 	if err != nil {
 		return planned{err: err, stage: "eval"}
@@ -689,6 +705,19 @@ func onePerm(e *permEnv, pc PermCase) (res permResult) {
 		res.detail["only_in_permuted"] = show(onlyP, 8)
 		return
 	}
+	// (1b) only INDEPENDENT statements may change places: a statement that names a table the plan creates
+	// keeps its position relative to that CREATE TABLE (MySQL family, PostgreSQL; SQLite accepts forward
+	// references and is checked by execution below)
+	if s.d != dmodel.SQLite {
+		if dd := dependentOrderDiff(base.cmds, perm.cmds); len(dd) > 0 {
+			res.verdict, res.key = "violated", keyOf("dependent-statement-order")
+			res.why = fmt.Sprintf("%s %s %s: listing the blocks in another order changes the order of DEPENDENT statements (%d pairs): %s", pc.Dialect, pc.Source, pc.Mode, len(dd), dd[0])
+			res.detail["pairs"] = dd[:min(len(dd), 6)]
+			res.detail["listed_order_plan"] = base.cmds[:min(len(base.cmds), 40)]
+			res.detail["permuted_plan"] = perm.cmds[:min(len(perm.cmds), 40)]
+			return
+		}
+	}
 	// (2) the evaluated graph is the same up to the order of its top-level objects
 	if a, b := multisetDiff(bl.dump, dumpRealm(perm.realm)); len(a)+len(b) > 0 {
 		res.verdict, res.key = "violated", keyOf("evaluated-graph")
@@ -699,7 +728,7 @@ func onePerm(e *permEnv, pc PermCase) (res permResult) {
 	}
 	// (3) the differ sees no difference between the two evaluations (fresh graphs; the direction
 	// alternates with the case so that both directions are exercised over the run)
-	a := apis[s.d]
+	a := apiFor(s.d, s.flavour)
 	{
 		r1, e1 := a.evalFiles([]HFile{{Name: "schema.hcl", Text: s.doc}})
 		r2, e2 := a.evalFiles(s.permFiles(pc))
@@ -717,7 +746,13 @@ func onePerm(e *permEnv, pc PermCase) (res permResult) {
 			r1, r2 = r2, r1
 		}
 		ch, err := a.diff.RealmDiff(r1, r2, schema.DiffNormalized())
-		if err != nil || len(ch) > 0 {
+		if err != nil {
+			// the differ refuses to compare these schemas at all (a feature it does not support): no verdict
+			res.verdict, res.key = "inconclusive", "differ-refuses"
+			res.detail["error"] = err.Error()
+			return
+		}
+		if len(ch) > 0 {
 			res.verdict, res.key = "violated", keyOf("differ-sees-difference")
 			res.why = fmt.Sprintf("%s %s: the differ reports changes between the listed-order and the permuted source (direction %d): err=%v\n%s", pc.Dialect, pc.Source, dir, err, clip([]byte(describe(ch)), 600))
 			return
@@ -880,7 +915,7 @@ func permCases(c *rt.Ctx, e *permEnv) (cases []PermCase, exhaustive, sampled int
 		}
 		for pi, p := range perms {
 			for mi, mode := range modes {
-				pc := PermCase{Dialect: string(s.d), Source: s.name, Mode: mode, Perm: p}
+				pc := PermCase{Dialect: s.dk(), Source: s.name, Mode: mode, Perm: p}
 				// single document for every permutation; a split into 2–4 files for every other one
 				// (and the identity order split into files once per source and mode).
 				cases = append(cases, pc)
@@ -902,7 +937,7 @@ func permCases(c *rt.Ctx, e *permEnv) (cases []PermCase, exhaustive, sampled int
 				id[i] = i
 				sp[i] = r.IntN(3)
 			}
-			cases = append(cases, PermCase{Dialect: string(s.d), Source: s.name, Mode: mode, Perm: id, Split: sp})
+			cases = append(cases, PermCase{Dialect: s.dk(), Source: s.name, Mode: mode, Perm: id, Split: sp})
 		}
 	}
 	// the heavy sources first, so that they do not form the tail of the parallel run
